@@ -3,19 +3,31 @@
 # Runs ./check <PROP> against a scratch copy of /repo with the patch applied, WITHOUT touching
 # /repo (used while other work builds against /repo).  The scratch worktree, harness copy and
 # build output live under /tmp/st-<PROP>-$$ and are removed afterwards.
+# At most 3 of these run at a time (slots under /verif/.build), and the scratch target directory
+# starts as a copy of /verif/.build/target so that the registry dependencies are not rebuilt.
 set -u
 PROP=$1; PATCH=$(readlink -f "$2"); shift 2
+mkdir -p /verif/.build
+exec 9>/dev/null
+while :; do
+  for s in 1 2 3; do
+    exec 9>"/verif/.build/seedtest.slot$s"
+    if flock -n 9; then break 2; fi
+  done
+  sleep 10
+done
 D=/tmp/st-$PROP-$$
-git -C /repo worktree add -q "$D/repo" HEAD || exit 3
+git -C /repo worktree add -q --detach "$D/repo" HEAD || exit 3
 ( cd "$D/repo" && git apply "$PATCH" ) || { echo "patch does not apply"; git -C /repo worktree remove --force "$D/repo"; rm -rf "$D"; exit 3; }
 mkdir -p "$D/harness"
 cp -r /verif/harness/src /verif/harness/Cargo.toml "$D/harness/"
 mkdir -p "$D/harness/.cargo"
 sed "s#/repo/#$D/repo/#g" -i "$D/harness/Cargo.toml"
-printf '[net]\noffline = true\n[build]\ntarget-dir = "%s/target"\n' "$D" > "$D/harness/.cargo/config.toml"
+printf '[net]\noffline = true\n[build]\ntarget-dir = "%s/target"\njobs = 6\n' "$D" > "$D/harness/.cargo/config.toml"
 cp "$D/repo/Cargo.lock" "$D/harness/Cargo.lock"
+[ -d /verif/.build/target ] && cp -r /verif/.build/target "$D/target" 2>/dev/null
 cd /verif
-GV_HARNESS_DIR="$D/harness" GV_TARGET_DIR="$D/target" GV_OUT_TAG="st$$" ./check "$PROP" "$@"
+GV_REPO_DIR="$D/repo" GV_HARNESS_DIR="$D/harness" GV_TARGET_DIR="$D/target" GV_OUT_TAG="st$$" ./check "$PROP" "$@"
 rc=$?
 git -C /repo worktree remove --force "$D/repo"
 rm -rf "$D"
